@@ -371,8 +371,9 @@ impl Responder {
     ///
     /// Returns a vector of rejected trackers during rebroadcast if any were rejected, [None] otherwise.
     fn rebroadcast_stale_txs(&self, height: u32) -> Option<Vec<UUID>> {
-        let dbm = self.dbm.lock().unwrap();
+        // WARNING(deadlock): The carrier goes before the dbm, as in `handle_breach` and `handle_reorged_txs`.
         let mut carrier = self.carrier.lock().unwrap();
+        let dbm = self.dbm.lock().unwrap();
         let mut rejected = Vec::new();
 
         // Retry sending trackers which have been in the mempool since more than `CONFIRMATIONS_BEFORE_RETRY` blocks.
